@@ -117,9 +117,22 @@ def main():
                      "grad_quadratic_form_inv[int vector]": (flat(Xi.grad_quadratic_form_inv(vi)), flat(Xf.grad_quadratic_form_inv(v))),
                      "inv @ v": (np.asarray(Xi.inv @ v, dtype=float), np.asarray(Xf.inv @ v, dtype=float)),
                      "log_abs_det": (np.atleast_1d(float(Xi.log_abs_det)), np.atleast_1d(float(Xf.log_abs_det)))}
+            # a reported gradient is a value: a later evaluation (another vector) on the same object must not change it
+            Xs = mk(np.float64)
+            v2 = v[::-1] * 0.5 + 1.0
+            g1 = Xs.grad_quadratic_form_inv(v)
+            g1_copy = flat(g1).copy()
+            g2 = Xs.grad_quadratic_form_inv(v2)
+            ref2 = flat(mk(np.float64).grad_quadratic_form_inv(v2))
+            pairs["grad_quadratic_form_inv[first result after a second call with another vector]"] = (flat(g1), g1_copy)
+            pairs["grad_quadratic_form_inv[second call on the same object vs on a fresh object]"] = (flat(g2), ref2)
+            l1 = flat(Xs.grad_log_abs_det).copy()
+            Xs.grad_quadratic_form_inv(v)
+            pairs["grad_log_abs_det[stable across other evaluations]"] = (flat(Xs.grad_log_abs_det), l1)
             for k, (a, b) in pairs.items():
                 if a.shape != b.shape or not np.allclose(a, b, rtol=1e-10, atol=1e-12):
-                    diffs[k] = f"int64 parameters give {np.round(a, 6).tolist()}, float64 parameters give {np.round(b, 6).tolist()}"
+                    diffs[k] = (f"int64 parameters give {np.round(a, 6).tolist()}, float64 parameters give {np.round(b, 6).tolist()}" if "[" not in k or "int vector" in k
+                                else f"{np.round(a, 6).tolist()} vs {np.round(b, 6).tolist()}")
         except Exception as e:  # noqa: BLE001
             diffs["exception"] = f"{type(e).__name__}: {e}"
         res[name] = diffs
